@@ -158,6 +158,8 @@ class C14(Prop):
             yield {'cfg': cfg, 'client': rng.random() < 0.15, 't0': rng.choice([0.0, 1000.0, 1.5e9]), 'ops': ops}
 
     def run_impl(self, case):
+        if case.get('refusal'):
+            return self.refusal_scenario(case)
         return run_trace(case)
 
     def _cfg(self, case, obs):
@@ -167,6 +169,8 @@ class C14(Prop):
                 f"cost_sleep := {q(c['sleep'])}; error_base := {q(c['error_base'])}; initial := {c_Z(c['initial'])} |}}")
 
     def coq_case(self, case, obs):
+        if case.get('refusal'):
+            return None
         items = []
         for o in obs:
             lab = o['lab']
@@ -186,6 +190,8 @@ class C14(Prop):
         return f"let '(c, t0, tr) := {t} in ctrace_firstbad c (init c t0) tr 0"
 
     def oracle(self, case, obs):
+        if case.get('refusal'):
+            return self.refusal_oracle(case, obs)
         c = case['cfg']
         hard = 0 if case['client'] else c['hard']
         limiting = hard - c['soft'] > 0
@@ -221,10 +227,81 @@ class C14(Prop):
                 return 'permitted concurrency is not monotone in the evaluated cost'
         return None
 
+    # ---- refusal at the hard limit, on a real session: request / notification / batch of notifications
+    @staticmethod
+    def refusal_scenario(case):
+        import asyncio, json
+        from harness import sessions
+        from aiorpcx import RPCSession
+        loop = sessions.new_loop()
+        try:
+            ran, hooks = [], []
+
+            class Srv(RPCSession):
+                cost_decay_per_sec = 0
+
+                async def handle_request(self, request):
+                    ran.append(request.method)
+                    return 1
+
+                def on_disconnect_due_to_excessive_session_cost(self):
+                    hooks.append(1)
+
+            async def main():
+                proto, ft, s = sessions.attach(Srv, 'server', case['transport'])
+                s.bump_cost(s.cost_hard_limit + case['over'])
+                s.recalc_concurrency()
+                item = lambda i, rid: dict({'jsonrpc': '2.0', 'method': 'm%d' % i, 'params': []}, **({'id': rid} if rid is not None else {}))
+                if case['shape'] == 'request':
+                    payload = item(0, 7)
+                elif case['shape'] == 'notification':
+                    payload = item(0, None)
+                elif case['shape'] == 'notification_batch':
+                    payload = [item(0, None), item(1, None)]
+                else:
+                    payload = [item(0, None), item(1, 8)]
+                proto.data_received(json.dumps(payload).encode() + b'\n')
+                await sessions.settle(12)
+                await asyncio.sleep(31)          # beyond any force_after
+                msgs = sessions.sent_messages(ft)
+                flat = [m for x in msgs for m in (x if isinstance(x, list) else [x])]
+                return {'ran': ran, 'hooks': len(hooks), 'closing': ft.closing, 'lost': ft.lost,
+                        'codes': [m.get('error', {}).get('code') if isinstance(m, dict) and isinstance(m.get('error'), dict) else None
+                                  for m in flat],
+                        'pm_done': proto._process_messages_task.done()}
+            return loop.run_until_complete(main())
+        finally:
+            sessions.close_loop(loop)
+
+    @staticmethod
+    def refusal_oracle(case, obs):
+        if obs['ran']:
+            return f"a handler ran although the session cost had reached the hard limit: {obs['ran']}"
+        if obs['hooks'] < 1:
+            return 'the disconnect hook did not run when a request was refused at the hard limit'
+        if not (obs['closing'] or obs['lost']):
+            return f"the session was not closed after refusing a {case['shape']} at the hard limit"
+        # (in a mixed batch the sibling notification's close() may already have shut the transport)
+        if case['shape'] == 'request' and -101 not in obs['codes']:
+            return f"the refused request was not answered with the excessive-usage error (codes {obs['codes']})"
+        return None
+
     def extra_checks(self, ctx):
         from harness.core import Failure
         out = []
         rng = ctx['rng']
+        nref = 0
+        for shape in ('request', 'notification', 'notification_batch', 'mixed_batch'):
+            for transport in ('rs', 'us'):
+                for over in (0, 1, 5000):
+                    rcase = {'refusal': True, 'shape': shape, 'transport': transport, 'over': over}
+                    robs = self.refusal_scenario(rcase)
+                    nref += 1
+                    ctx['extra_evals'] += 1
+                    cl = self.refusal_oracle(rcase, robs)
+                    if cl:
+                        out.append(Failure(rcase, robs, cl))
+        ctx['notes'].append(f'refusal at the hard limit on a real RPCSession: {nref} scenarios (request, notification, batches; both transports)')
         sizes = [0, 1, 100, 5000, 100000] + [rng.randrange(0, 200000) for _ in range(10)]
         for n in sizes:
             case = {'kind': 'message_session_send', 'cmd': 'ping', 'payload_len': n}
@@ -244,9 +321,13 @@ class C14(Prop):
         return None
 
     def nontrivial(self, case, obs):
+        if case.get('refusal'):
+            return True
         return sum(1 for o in obs if o['recalced']) >= 2 and len({o['target'] for o in obs}) >= 2
 
     def histogram(self, case, obs):
+        if case.get('refusal'):
+            return ['refusal']
         h = ['client' if case['client'] else 'server', 'limiting' if (0 if case['client'] else case['cfg']['hard']) > case['cfg']['soft'] else 'unlimited']
         if any(o['target'] == 0 for o in obs):
             h.append('reached_refusal')
